@@ -237,6 +237,7 @@ bool TlsWorld::deliver(int dir) {
         rcv.feed(d.data(), d.size());
         return true;
     }
+    if (record_granular) { Bytes u = wire[dir].front(); wire[dir].pop_front(); rcv.feed(u.data(), u.size()); return true; }
     // TLS: coalesce everything queued, then deliver what the chunker says
     Bytes all;
     for (auto &u : wire[dir]) { all.insert(all.end(), u.begin(), u.end()); }
